@@ -98,6 +98,7 @@ type CState struct {
 	Mounts  map[string]string
 	Devs    map[string]string
 	Args    []string
+	OrigArgs []string // the runtime's original command line (what a bare removal marker reverts to)
 	Hooks   map[string][]string
 	Rlimits []string
 	Res     map[string]string
@@ -122,7 +123,7 @@ func cpMap(m map[string]string) map[string]string {
 }
 
 func (c *CState) clone() *CState {
-	n := &CState{Ann: cpMap(c.Ann), Env: cpMap(c.Env), Mounts: cpMap(c.Mounts), Devs: cpMap(c.Devs), Args: append([]string(nil), c.Args...),
+	n := &CState{Ann: cpMap(c.Ann), Env: cpMap(c.Env), Mounts: cpMap(c.Mounts), Devs: cpMap(c.Devs), Args: append([]string(nil), c.Args...), OrigArgs: c.OrigArgs,
 		Hooks: map[string][]string{}, Rlimits: append([]string(nil), c.Rlimits...), Res: cpMap(c.Res), Huge: cpMap(c.Huge), Unified: cpMap(c.Unified), CgPath: c.CgPath, Oom: c.Oom}
 	for k, v := range c.Hooks {
 		n.Hooks[k] = append([]string(nil), v...)
@@ -451,6 +452,7 @@ func stateFromOrig(orig []MOp) *CState {
 	for _, o := range orig {
 		c.set(o)
 	}
+	c.OrigArgs = append([]string(nil), c.Args...)
 	return c
 }
 
@@ -484,7 +486,11 @@ func runModel(rq *MReq, order []string) *MExpect {
 					delete(led, o.item())
 					delete(ex.FinalSets, o.item())
 					if o.Kind == "args" {
-						// the marker only releases the claim; the command line itself stays until set
+						// the marker releases the claim; without a set in the same reply no plugin's
+						// command line is left in the combined result: the runtime's original applies
+						if o.Act == "rm" {
+							st.Args = append([]string(nil), st.OrigArgs...)
+						}
 					} else {
 						st.remove(o)
 					}
